@@ -179,7 +179,7 @@ func ruleC04Arms(c *Ctx) {
 			if call, ok := in.(*ssa.Call); ok {
 				if cal := call.Call.StaticCallee(); cal != nil && cal.Signature.Recv() != nil && isPtrToNamed(cal.Signature.Recv().Type(), modPath+"/sizes", "Graph") {
 					switch {
-					case strings.HasPrefix(cal.Name(), "Get"), strings.HasPrefix(cal.Name(), "Require"):
+					case strings.HasPrefix(refName(cal), "Get"), strings.HasPrefix(refName(cal), "Require"):
 						c.violate("C04.arms", "gitlink-lookup", call.Pos(), name, "the submodule arm looks up an object ("+cal.Name()+"): gitlink targets are not part of the repository")
 					}
 				}
@@ -219,7 +219,7 @@ func (c *Ctx) checkUnconditional(rule, key string, ed *effEdge) {
 			c.violate(rule, key, posOf(ev), fnName(f), fmt.Sprintf("the update `%s` is executed between %d and %d times per call of %s (must be exactly once, unconditionally): the position of the maximal object in the enumeration would matter", ed.Key(), r.Min, r.Max, fnName(f)))
 			return
 		}
-		if f.Signature.Recv() != nil && isPtrToNamed(f.Signature.Recv().Type(), modPath+"/sizes", "Graph") && f.Object() != nil && f.Object().Exported() {
+		if f.Signature.Recv() != nil && isPtrToNamed(f.Signature.Recv().Type(), modPath+"/sizes", "Graph") && f.Object() != nil && token.IsExported(refName(f)) {
 			chains = append(chains, strings.Join(chain, " <- "))
 			return
 		}
@@ -306,7 +306,7 @@ func ruleC04Descend(c *Ctx) {
 	f := site.Fn
 	name := fnName(f)
 	want := map[string]bool{
-		"T:max_path_depth <-MAX {ADD(T:max_path_depth,const:1)}":                              true,
+		"T:max_path_depth <-MAX {ADD(T:max_path_depth,const:1)}":                             true,
 		"T:max_path_length <-MAX {ADD(T:max_path_length,const:1,len(F:git.TreeEntry.Name))}": true,
 		"T:max_path_length <-MAX {len(F:git.TreeEntry.Name)}":                                true,
 		eDirs: true,
